@@ -46,6 +46,9 @@ func init() {
 	register("C04crash", func(s *simrt.Sim) *Result {
 		return RunRoute(s, RouteProfile{Name: "C04crash", Multi: true, Faults: true, Crash: true, Cleanup: true})
 	})
+	register("C04restart", func(s *simrt.Sim) *Result {
+		return RunRoute(s, RouteProfile{Name: "C04restart", Multi: true, Faults: true, Crash: true, Restart: true, Cleanup: true})
+	})
 	register("C04bias", func(s *simrt.Sim) *Result {
 		return RunRoute(s, RouteProfile{Name: "C04bias", Faults: true, BiasFaults: true, Cleanup: true})
 	})
